@@ -100,14 +100,15 @@ class Run:
 
             def send_packet(self, pk):
                 rid = run.pk_rid.get(id(pk))
-                t0 = run.now
+                # what counts is the moment the packet is handed to the driver (the call may block)
+                rec = {'sess': self.session, 'rid': rid, 't': run.now, 'closed': self.closed, 'current': run.cf.link is self,
+                       'ev': run.ev_index}
                 if run.gate is not None:
-                    run.gate(pk, rid)           # may block (a blocking driver) or raise (a failing driver)
-                cur = run.cf.link is self
-                run.tx.append({'sess': self.session, 'rid': rid, 't': t0, 'closed': self.closed, 'current': cur,
-                               'ev': run.ev_index})
+                    if run.gate(pk, rid) == 'drop':     # may block (a blocking driver), raise, or drop the packet
+                        return
+                run.tx.append(rec)
                 if rid is not None:
-                    run.out.append([self.session, rid, t0])
+                    run.out.append([self.session, rid, rec['t']])
 
             def receive_packet(self, wait=0):
                 if run.inbox:
